@@ -173,6 +173,13 @@ def abstract_record3(rng, rec, style=None):
             cells.append(n)
             exp[name] = num_val(n)
         rows.append({"cells": cells, "cut": rng.random() < 0.6})
+    # a whole broadcast-orbit line left blank (all four values zero): printed as an empty line or as a line of blanks
+    if rng.random() < 0.05:
+        k = rng.choice([1, 3])
+        rows[k]["cells"] = [None, None, None, None]
+        rows[k]["cut"] = rng.random() < 0.7
+        for name in ORBIT[k]:
+            exp[name] = Fraction(0)
     # the two spare columns of the last line: absent, blank or zero
     rows[-1]["cells"] += [rng.choice([None, {"x": "E", "lead": True, "neg": False, "m": 0, "e": 0}]) for _ in range(rng.choice([0, 0, 1, 2]))]
     item = {"kind": "N", "sys": rec["system"], "prn": rec["prn"], "zero": rng.random() < 0.8,
@@ -532,6 +539,11 @@ def one_file(ctx, impl, drv, f, parser):
     ctx.case({"p": parser, "t": common.digest(f["text"])}, nontrivial=len(f["recs"]) > 0)
     ctx.count(f"parser:{parser}")
     ctx.count(f"sat_sys:{f['sat_sys']}")
+    for src in ("model", "model2"):
+        for it in f.get(src, {}).get("items", []):
+            for row in it["rows"] if it["kind"] == "N" else []:
+                if all(c is None for c in row["cells"][:4]) and len(row["cells"]) >= 4:
+                    ctx.count("records with an all-blank orbit line: " + ("empty line" if row["cut"] else "line of blanks"))
     for r in f["recs"]:
         ctx.count(f"sys:{r['system']}")
         if (r["toc_gps"] - GPS0).days // 7 != (r["toe_gps"] - GPS0).days // 7 or (r["toc_gps"] - GPS0).days // 7 != (r["ttx_gps"] - GPS0).days // 7:
